@@ -19,7 +19,7 @@ from .. import tree  # noqa: F401
 import numpoly
 from numpoly.baseclass import FeatureNotSupported
 
-from ..alpha import alpha, build_checked, spec, wellformed
+from ..alpha import alpha, build, build_checked, spec, wellformed
 from .. import space
 from . import C09, C10
 
@@ -87,6 +87,14 @@ def probed(f):
 
 
 # ---- operands ------------------------------------------------------------------------------------
+class SubPoly(numpoly.ndpoly):
+    """a strict subclass of ndpoly (views of it are polynomial arrays like any other)"""
+
+
+class SubArray(numpy.ndarray):
+    """an ndarray subclass as the numeric operand"""
+
+
 def operands():
     q = {}
     q["v"] = C09.tagged((3,))                                   # vector, two names
@@ -161,6 +169,19 @@ def catalogue(P):
     return cat
 
 
+def same_terms(x, y):
+    """term-by-term equality that takes nan for equal to nan (the exact model cannot: nan != nan)"""
+    def terms(p):
+        out = {}
+        for e, c in zip(numpy.asarray(p.exponents).tolist(), p.coefficients):
+            c = numpy.asarray(c)
+            if numpy.any(c != 0):
+                out[tuple(e)] = c
+        return out
+    tx, ty = terms(x), terms(y)
+    return set(tx) == set(ty) and all(numpy.array_equal(tx[k_], ty[k_], equal_nan=tx[k_].dtype.kind in "fc") for k_ in tx)
+
+
 def same(x, y):
     """agreement of two results: type, shape, dtype, names, value"""
     if isinstance(x, numpoly.ndpoly) or isinstance(y, numpoly.ndpoly):
@@ -172,7 +193,7 @@ def same(x, y):
             return f"dtypes {x.dtype} vs {y.dtype}"
         if tuple(x.names) != tuple(y.names):
             return f"names {x.names} vs {y.names}"
-        if x.size and alpha(x) != alpha(y):
+        if x.size and alpha(x) != alpha(y) and not same_terms(x, y):
             return f"values {alpha(x)!r} vs {alpha(y)!r}"
         return None
     if isinstance(x, (tuple, list)) or isinstance(y, (tuple, list)):
@@ -310,14 +331,27 @@ def run_case(case, R):
                ("==", operator.eq, numpy.equal), ("!=", operator.ne, numpy.not_equal), ("<", operator.lt, numpy.less),
                ("<=", operator.le, numpy.less_equal), (">", operator.gt, numpy.greater), (">=", operator.ge, numpy.greater_equal),
                ("@", operator.matmul, numpy.matmul), ("**", operator.pow, numpy.power)]
+        # operands of other kinds: the same object on both sides, non-finite coefficients, a strict subclass of ndpoly,
+        # an ndarray subclass as the numeric operand
+        nf = build(spec(("q0", "q1"), (3,), [((1, 0), [float("nan"), float("inf"), 1.0]), ((0, 0), [2.0, float("nan"), -float("inf")])], "f8"))
+        vs = numpy.ndarray.view(build_checked(operands()["v"]), SubPoly)
+        ms = numpy.ndarray.view(build_checked(operands()["m"]), SubPoly)
+        arr = numpy.array([1, -2, 3]).view(SubArray)
+        more = (("v,v same object", v, v), ("m,m same object", m, m), ("f,f same object", f_, f_), ("nf,nf same object", nf, nf), ("nf,f", nf, f_),
+                ("f,nf", f_, nf), ("nf,copy", nf, nf.copy()), ("sub,w", vs, w), ("w,sub", w, vs), ("sub,2", vs, 2), ("sub,sub same object", vs, vs),
+                ("msub,m2", ms, m2), ("v,subarray", v, arr), ("subarray,v", arr, v), ("sub,subarray", vs, arr))
         for sym, opf, npf in ops:
-            for la, a_, b_ in (("v,w", v, w), ("m,m2", m, m2), ("v,2", v, 2), ("3,v", 3, v), ("m,v2", m, v[:2]), ("s,s", s, s), ("f,c", f_, c)):
+            for la, a_, b_ in (("v,w", v, w), ("m,m2", m, m2), ("v,2", v, 2), ("3,v", 3, v), ("m,v2", m, v[:2]), ("s,s", s, s), ("f,c", f_, c)) + more:
+                if sym in ("<", "<=", ">", ">=", "@") and la.startswith(("nf", "f,nf")):
+                    continue    # no order on nan; matmul of nan sums is not compared
+                if sym == "@" and "subarray" in la:
+                    continue
                 if sym == "**" and not isinstance(b_, int):
                     continue
                 compare_spellings(R, "operator" + sym, f"({la})", outcome(lambda: opf(a_, b_)), outcome(lambda: npf(a_, b_)), "operator", "numpy." + npf.__name__, ["operators"])
                 compare_spellings(R, "operator" + sym, f"({la}) numpoly", outcome(lambda: opf(a_, b_)), outcome(lambda: getattr(numpoly, npf.__name__)(a_, b_)), "operator", "numpoly." + npf.__name__, ["operators"])
         for sym, opf, npf in (("neg", operator.neg, numpy.negative), ("pos", operator.pos, numpy.positive), ("abs", operator.abs, numpy.absolute)):
-            for x in (v, m, f_, s, c):
+            for x in (v, m, f_, s, c, vs, ms, nf):
                 compare_spellings(R, "operator " + sym, "(x)", outcome(lambda: opf(x)), outcome(lambda: npf(x)), "operator", "numpy." + npf.__name__, ["operators"])
         # division operators are spellings of the poly_* functions
         tiny = build_checked(spec(("q0",), (2,), [((1,), [1e-40, 2.0]), ((0,), [3.0, 1e-35])], "f8"))
@@ -336,7 +370,7 @@ def run_case(case, R):
                                ("round", numpy.round, [{}, {"decimals": 1}]), ("transpose", numpy.transpose, [{}]),
                                ("diagonal", numpy.diagonal, [{}, {"offset": 1}]), ("repeat", numpy.repeat, [{"repeats": 2, "axis": 0}]),
                                ("nonzero", numpy.nonzero, [{}])):
-            for x, lx in ((m, "m"), (P["cf"], "cf"), (c, "c")):
+            for x, lx in ((m, "m"), (P["cf"], "cf"), (c, "c"), (ms, "msub")):
                 for kw in kws:
                     if lx == "c" and (kw.get("axis") == 1 or meth in ("diagonal",)):
                         continue
@@ -365,7 +399,7 @@ def run_case(case, R):
     elif k in ("negf", "negu"):
         funcs, ufuncs = public_unregistered()
         items = (funcs if k == "negf" else ufuncs)[case["i0"]:case["i1"]]
-        polys = [build_checked(C09.tagged((3,))), build_checked(C09.tagged((2, 2), 10))]
+        polys = [build_checked(C09.tagged((3,))), build_checked(C09.tagged((2, 2), 10)), numpy.ndarray.view(build_checked(C09.tagged((3,))), SubPoly)]
         for name, f in items:
             conclusive = 0
             R.state((k, name))
